@@ -22,6 +22,16 @@ fn validate_and_load(ctx: &Ctx, kind: &str, what: &dyn Fn() -> serde_json::Value
         problems.retain(|p| !p.starts_with("loca is "));
     }
     for pr in problems.iter().take(3) {
+        // Known deviation of the WOFF2 hmtx reconstruction (see KNOWN_FINDINGS.txt): the trailing leftSideBearing[] array
+        // is rebuilt for *every* glyph instead of the glyphs after numberOfHMetrics, i.e. the table is exactly
+        // 2 * numberOfHMetrics bytes too long. Any other length problem keeps the generic key.
+        if kind == "woff2-reconstruction" && pr.starts_with("hmtx is ") {
+            let n: Vec<u64> = pr.split(|c: char| !c.is_ascii_digit()).filter(|t| !t.is_empty()).filter_map(|t| t.parse().ok()).collect();
+            if n.len() == 4 && n[0] == n[3] + 2 * n[2] && n[2] > 0 {
+                ctx.violation("C09:woff2-reconstruction:hmtx-has-a-left-side-bearing-for-every-glyph", || json!({"case": what(), "problem": pr}));
+                continue;
+            }
+        }
         ctx.violation(&format!("C09:{}:{}", kind, class_of(pr)), || json!({"case": what(), "problem": pr, "all_problems": problems.iter().take(10).collect::<Vec<_>>()}));
     }
     if need_cmap {
